@@ -21,6 +21,15 @@ Proof.
   destruct (N.ltb_spec (pe + 1) cur); f_equal; lia.
 Qed.
 
+Lemma data_epoch pe cur :
+  select_epoch true pe cur = Ok cur /\
+  (forall p, pe = Some p -> p + 1 < two64 ->
+     select_epoch false pe cur = if cur <? p then Err m_epoch_lower else Ok (N.min cur (p + 1))).
+Proof.
+  split; [apply select_epoch_genesis|].
+  intros p E H. subst pe. now apply select_epoch_spec.
+Qed.
+
 Section Manager.
   Variable R : Type.
   Variable K : Type.
